@@ -675,14 +675,18 @@ class SmallVectorBase : private Alloc {
       // Indeed, capacity cannot shrink, except for shrink_to_fit which resets to small state if possible.
       // Besides, if 'this' is large, let's not shrink to small size and keep our dynamic memory for now.
       // To sum-up, in this context, we do not touch our capacity, only move and relocates o's elements
-      move_n(o._storage.ptr(), o._capa, begin(), size());
-      if (o._size == kMaxSize) {
-        if (isSmall()) {
-          _size = kMaxSize;
-        }
-        o._size = inplaceCapa;
+      if (!isSmall() && _capa < o._capa) {
+        // Our dynamic buffer may be smaller than the inline capacity if it has been stolen from another vector.
+        // Release it and go back to the (empty) small state, which can hold all elements of 'o'.
+        amc::destroy_n(_storage.dyn(), _size);
+        freeStorage();
+        _capa = 0;
+        _size = inplaceCapa;
       }
-      msize() = amc::exchange(o._capa, 0);
+      move_n(o._storage.ptr(), o._capa, begin(), size());
+      SizeType newSize = amc::exchange(o._capa, 0);
+      o._size = inplaceCapa;
+      setSize(newSize);
     } else {
       // Clear our stuff before stealing o's guts
       destroyFreeStorage();
